@@ -95,6 +95,13 @@ func (c Config) Options() *opt.Options {
 		o = flushy()
 		o.BlockCacheCapacity = 1
 		o.OpenFilesCacheCapacity = 1
+	case "tinybloom":
+		// a one-block cache in front of the buffer pool, with a filter that has no false positives:
+		// a filter or data block whose buffer went back to the pool too early reads as garbage
+		o = flushy()
+		o.BlockCacheCapacity = 1
+		o.Filter = ExactFilter{}
+		o.FilterBaseLg = 1
 	case "seeky":
 		o = flushy()
 		o.WriteBuffer = 64
